@@ -23,10 +23,10 @@ Clauses(t) ==
   [ dog_finite   |-> o.finite,
     dog_inside   |-> o.inside,
     dog_on_path  |-> o.onPath,
-    drift_branch |-> InSeq(b, o.kinds),
+    drift_branch |-> o.id >= 9000000 \/ InSeq(b, o.kinds),          \* ids >= 9000000: corrupted copies (binding self-test)
     \* lattice instances: the codes observed in floating point are those of the integers TLC enumerated,
     \* and the spec's own verdicts for that instance hold
-    drift_lattice |-> lattice => (/\ o.cVt = Cmp(cc, tt) /\ o.cVn = Cmp(cc, nn) /\ o.nVt = Cmp(nn, tt)
+    drift_lattice |-> (lattice /\ o.id < 9000000) => (/\ o.cVt = Cmp(cc, tt) /\ o.cVn = Cmp(cc, nn) /\ o.nVt = Cmp(nn, tt)
                                   /\ Inside /\ OnPath /\ InSeq(Kind, o.kinds)) ]
 ClauseNames == {"dog_finite", "dog_inside", "dog_on_path", "drift_branch", "drift_lattice"}
 
